@@ -230,6 +230,14 @@ V("v_extrude_border", "utils_extrude", "util::extrude_border for EVERY image wit
 V("v_palette_mapper_new", "utils_palette", "util::PaletteMapper::new for EVERY palette (sparse, duplicates, indices >= 256) and options: a 24-bit colour key is mapped iff some entry has that colour, and then to the index of such an entry if it is below 256, else to the failure index; transparent = configured index or the failure index",
   ["util::PaletteMapper::new"], fn="PaletteMapper::new", witness="x_utils")
 V("v_palette_mapper_lookup", "utils_palette", "util::PaletteMapper::lookup: alpha != 255 -> transparent index; otherwise the mapped index of the colour key or the failure index", ["util::PaletteMapper::lookup"], fn="PaletteMapper::lookup", witness="x_utils")
+V("v_routes_agree", "routes", "C19 as a lemma over the route contracts, checked on a client that calls the real functions POSITIONALLY as documented (cel(frame, layer), frame(f).layer(l), layer(l).frame(f)): same cel id, same file, coordinates as requested, same emptiness - a flipped parameter order fails here",
+  ["file::AsepriteFile::cel", "file::Frame::layer", "layer::Layer::frame"], fn="routes_agree", witness="x_routes")
+V("v_single_visible_frame", "compose", "C19 / C02 as a lemma over the contracts of frame_image and layer_image: if exactly one cel of a frame belongs to a visible layer, Frame::image equals that cel's image pixel for pixel (induction over the layer-order fold)",
+  ["file::AsepriteFile::frame_image", "file::AsepriteFile::layer_image"], fn="single_visible_layer_frame_is_the_cel_image", witness="x_routes")
+V("v_frame_image_api", "tilemap_api", "Frame::image == frame_image of that frame (the layer-order fold with hidden layers skipped)", ["file::Frame::image"], fn="Frame::image", witness="x_frames_vs_spec")
+V("v_cel_image_api", "tilemap_api", "Cel::image == layer_image of that cel id: sprite-sized, the cel over transparent black, blank if the slot is empty", ["cel::Cel::image"], fn="Cel::image", witness="x_routes")
+V("v_tilemap_image_api", "tilemap_api", "Tilemap::image is the image of its cel (same pixel function as Cel::image)", ["tilemap::Tilemap::image"], fn="Tilemap::image", witness="x_tilemap_views")
+V("v_tileset_getters", "validate_tilesets", "Tileset::{id, tile_count, tile_size, base_index, empty_tile_is_id_zero, external_file} return the stored attribute", ["tileset::Tileset::id", "tileset::Tileset::tile_count", "tileset::Tileset::tile_size", "tileset::Tileset::base_index", "tileset::Tileset::empty_tile_is_id_zero", "tileset::Tileset::external_file"], fn="Tileset::tile_size", witness="x_roundtrip_structure")
 V("v_file_tilemap", "tilemap_api", "AsepriteFile::tilemap(layer, frame) for EVERY validated sprite: Some exactly for a tilemap cel of a tilemap layer whose tileset exists (ids in range); then it carries that tileset and that cel, and its logical size is ceil(canvas / tile size) in both directions; no division by zero (tile size >= 1 from the tileset decoder), the assert! cannot fire, the u16 casts are lossless",
   ["file::AsepriteFile::tilemap", "cel::Cel::is_tilemap", "cel::Cel::raw_cel", "tileset::TileSize::from", "tilemap::Tilemap::width", "tilemap::Tilemap::height", "tilemap::Tilemap::tile_size"], fn="AsepriteFile::tilemap", witness=["x_tilemap_views", "x_usable_after_load"])
 V("v_extfiles_add", "dec_ext", "ExternalFilesById::add stores the entry under its own id; get(id) is the map lookup; new() is empty (real one-liners over the HashMap shim)",
@@ -371,24 +379,24 @@ def prop(id, level, obls, explanation, **kw):
     d.update(kw)
     PROPS[id] = d
 
-prop("C01", "proof", ACC_V + ["v_extfiles_add", "v_extfiles_get", "v_tilesets_add", "v_tilesets_get", "v_compute_parents", "v_from_vec", "x_forest_exhaustive", "v_chunk_read", "v_chunk_read_all", "v_dec_layer", "v_dec_layer_type", "v_dec_blend_mode", "v_dec_tags", "v_dec_anim_dir", "v_dec_ext", "v_dec_slice_key", "v_dec_slice9", "v_dec_palette", "v_palette_color", "v_dec_tileset", "v_dec_tileset_ref", "v_check_chunk_bytes"]
+prop("C01", "proof", ACC_V + ["v_tileset_getters", "v_extfiles_add", "v_extfiles_get", "v_tilesets_add", "v_tilesets_get", "v_compute_parents", "v_from_vec", "x_forest_exhaustive", "v_chunk_read", "v_chunk_read_all", "v_dec_layer", "v_dec_layer_type", "v_dec_blend_mode", "v_dec_tags", "v_dec_anim_dir", "v_dec_ext", "v_dec_slice_key", "v_dec_slice9", "v_dec_palette", "v_palette_color", "v_dec_tileset", "v_dec_tileset_ref", "v_check_chunk_bytes"]
      + ["k_parse_chunk_type", "k_parse_pixel_format", "k_check_chunk_bytes", "k_pixel_format_accessors"] + READER + LAYER_DEC + TAGS_DEC + SLICE_DEC
      + ["k_palette_chunk_20", "k_palette_chunk_26", "k_palette_chunk_35"] + EXT_DEC + TS_DEC + ["v_read_aseprite", "v_parse_pixel_format", "v_parse_frame", "v_num_frames", "v_num_layers", "v_file_layer", "v_file_frame", "x_decoder_contracts", "x_roundtrip_structure", "x_header_extremes"],
      "Chunk decoders (layer, tags, external files, palette, tileset header, slice keys) are Verus contracts on the real text for EVERY payload length and entity count, field by field against the file-format layout, modulo the reader-primitive contract; the reader primitives and the enum decoders are Kani contracts (enums over their whole domain, primitives and a few decoder shapes on fixed payload sizes with symbolic contents). The composition (header, frame dispatch, accessors) cannot be executed symbolically by Kani nor extracted for Verus and is a bounded stand-in (x_*).")
-prop("C02", "proof", ["v_frame_image", "v_write_cel", "x_cels_table", "x_forest_exhaustive", "v_celsdata_add_cel", "v_celsdata_cel", "v_write_raw_cel", "v_write_tilemap_cel", "v_tile_slice", "v_tilemap_tile", "v_is_visible", "k_mul_un8", "k_cels_table", "x_mode_table", "x_frames_vs_spec", "x_cel_order_irrelevant", "x_blend_public_api"],
+prop("C02", "proof", ["v_frame_image_api", "v_single_visible_frame", "v_frame_image", "v_write_cel", "x_cels_table", "x_forest_exhaustive", "v_celsdata_add_cel", "v_celsdata_cel", "v_write_raw_cel", "v_write_tilemap_cel", "v_tile_slice", "v_tilemap_tile", "v_is_visible", "k_mul_un8", "k_cels_table", "x_mode_table", "x_frames_vs_spec", "x_cel_order_irrelevant", "x_blend_public_api"],
      "The raw-cel rasteriser is proved FUNCTIONALLY correct by Verus for unbounded sizes (placement, clipping, row-major index, opacity product, blend call). mul_un8 == round8 and the cel table's storage-order independence are Kani contracts. frame_image / write_cel / is_visible glue and the dispatch table (Kani ICE, no dyn in Verus) are bounded stand-ins.")
 prop("C03", "proof", BLEND_LEAVES + BLEND_WRAPPERS + ["k_parse_blend_mode", "x_mode_table", "x_soft_light", "x_hsl_kernels", "x_blend_public_api"],
      "14 integer modes: leaves == Aseprite macros over their full domains, normal/merge == reference over all 2^72 inputs, every mode function == RGBA_BLENDER_N structure modulo callees (uninterpreted-function abstraction). soft light and the four HSL modes: integer skeleton proved, f64 kernels bounded-exec (soft light exhaustive over 65536 pairs).")
 prop("C04", "proof", ["x_cel_table_memory"] + VDEC_IDS + ["v_chunk_read", "v_chunk_read_all", "v_parse_chunk_type", "v_celsdata_new", "v_parseinfo_new", "v_parseinfo_validate", "v_celsdata_validate", "v_rawcel_validate", "v_layersdata_validate", "v_tilesets_validate", "v_compute_parents", "v_from_vec", "k_check_chunk_bytes", "k_scale_6bit", "k_parse_chunk_type", "k_parse_pixel_format"] + LAYER_DEC + TAGS_DEC + SLICE_DEC + PAL_DEC + EXT_DEC
      + TS_DEC + CEL_DEC + UD_DEC + CP_DEC + READER + ["k_tilemap_bits", "k_tile_parse", "k_cels_table", "v_read_aseprite", "v_parse_frame", "v_ud_set_tag_user_data", "v_ud_add_user_data", "v_ud_add_cel", "v_cel_mut", "x_decoder_contracts", "x_total_load"],
      "Totality contracts: every Kani decoder harness also discharges the automatic no-panic / no-overflow / in-bounds checks for all contents of its payload size; Verus proves compute_parents and that from_vec establishes its precondition. Whole-load totality (glue, zlib, stack depth, allocation) is fault enumeration in an isolated child process.", level_note_extra="fault enumeration for the composition")
-prop("C05", "proof", ["v_tilesets_get", "v_file_tilemap", "v_from_vec", "v_parseinfo_validate", "v_celsdata_new", "v_parseinfo_new", "v_tilesets_validate", "v_celsdata_validate", "v_rawcel_validate", "v_imagecontent_validate", "v_layersdata_validate", "v_write_cel", "v_frame_image", "v_layer_image", "v_validate_indexed", "v_rawpixels_validate", "v_indexed_as_rgba", "v_dec_tilemap", "v_dec_tileset", "v_write_raw_cel", "v_write_tilemap_cel", "v_tile_slice", "v_tilemap_tile", "v_tilemap_lookup", "v_tile_offsets", "v_is_visible", "v_pixels_per_tile", "k_validate_indexed", "k_indexed_as_rgba", "k_tileset_head_34", "k_tileset_head_44", "x_usable_after_load"],
+prop("C05", "proof", ["v_frame_image_api", "v_cel_image_api", "v_tilemap_image_api", "v_tilesets_get", "v_file_tilemap", "v_from_vec", "v_parseinfo_validate", "v_celsdata_new", "v_parseinfo_new", "v_tilesets_validate", "v_celsdata_validate", "v_rawcel_validate", "v_imagecontent_validate", "v_layersdata_validate", "v_write_cel", "v_frame_image", "v_layer_image", "v_validate_indexed", "v_rawpixels_validate", "v_indexed_as_rgba", "v_dec_tilemap", "v_dec_tileset", "v_write_raw_cel", "v_write_tilemap_cel", "v_tile_slice", "v_tilemap_tile", "v_tilemap_lookup", "v_tile_offsets", "v_is_visible", "v_pixels_per_tile", "k_validate_indexed", "k_indexed_as_rgba", "k_tileset_head_34", "k_tileset_head_44", "x_usable_after_load"],
      "Assume/guarantee: the renderers are proved panic-free under explicit preconditions R-pre (Verus, unbounded); that validation establishes R-pre for everything that loads is checked by fault enumeration: every loadable corrupted file is driven through every accessor.")
 prop("C06", "proof", ["v_indexed_as_rgba", "v_gray_into_rgba", "v_is_background", "v_rawpixels_validate", "v_dec_cel", "v_dec_cel_content", "v_dec_cel_common", "v_dec_image_size", "v_pixel_count", "v_cel_is_empty", "v_cel_frame", "v_cel_layer", "v_celsdata_cel"] + PIX + ["k_cel_chunk_15", "k_cel_chunk_17", "k_cel_chunk_18", "k_cel_raw_rgba_28", "k_cel_raw_gray_24", "k_cel_raw_indexed_23", "v_write_raw_cel", "x_frames_vs_spec", "x_roundtrip_structure", "x_neutral_encodings"],
      "Pixel conversions proved for all values; cel header / raw payload decode on fixed sizes; placement + alpha scaling is the Verus rasteriser contract; zlib storage, linked cels and the transparent-index rule end-to-end are bounded-exec against the composition spec.")
 prop("C07", "exploration", ["v_read_aseprite", "v_parse_frame", "v_celsdata_add_cel", "k_parse_chunk_type", "k_layer_chunk_24", "k_tileset_head_44", "x_neutral_encodings", "x_cel_order_irrelevant"],
      "Mostly glue and zlib: bounded exploration over seeded models x ~30 encoding choices; contract part: ignorable chunk codes map to the three ignorable kinds (all u16), trailing payload bytes do not change a decoder's result (layer / tileset shapes with slack bytes).")
-prop("C08", "proof", ["v_tilesets_get", "v_tilesets_add", "v_file_tilemap", "v_write_tilemap_cel", "v_dec_tilemap", "v_dec_bitmask", "v_dec_tileset", "k_tile_parse", "k_tile_bitmask_header", "k_tilemap_bits", "k_pixels_per_tile", "v_tilemap_tile", "v_tilemap_lookup", "v_tile_offsets", "v_tile_slice", "v_pixels_per_tile", "v_write_tilemap_cel", "x_tilemap_views"],
+prop("C08", "proof", ["v_tilemap_image_api", "v_tileset_getters", "v_tilesets_get", "v_tilesets_add", "v_file_tilemap", "v_write_tilemap_cel", "v_dec_tilemap", "v_dec_bitmask", "v_dec_tileset", "k_tile_parse", "k_tile_bitmask_header", "k_tilemap_bits", "k_pixels_per_tile", "v_tilemap_tile", "v_tilemap_lookup", "v_tile_offsets", "v_tile_slice", "v_pixels_per_tile", "v_write_tilemap_cel", "x_tilemap_views"],
      "Tile word decode, tile lookup and tile slicing are contracts over unbounded sizes; the Tilemap / Tileset views need a loaded sprite and are compared with each other and with the model on seeded sprites.")
 prop("C09", "proof", ["v_acc_layer_parent", "v_compute_parents", "v_from_vec", "v_is_visible", "v_frame_image", "x_forest_exhaustive"],
      "compute_parents is proved by Verus on the real text for ALL layer sequences (any length, any depth) whose first level is 0 - the forests of the property are a subset; from_vec establishes that precondition; Layer::is_visible is proved equal to 'own flag and all ancestors' flags' for every table satisfying the parent contract. Layer::parent and the compositing gate are exhaustively executed for every forest of up to 6 (quick) / 8 (thorough) layers and every flag assignment.")
@@ -408,4 +416,4 @@ prop("C17", "proof", ["k_mul_un8", "k_blend8", "k_merge", "k_normal_alpha", "k_p
      + ["k_ch_" + m for m in ["multiply", "screen", "overlay", "darken", "lighten", "color_dodge", "color_burn", "hard_light", "difference", "exclusion", "divide"]] + ["k_mode_addition", "k_mode_subtract", "x_hsl_kernels", "x_blend_public_api", "x_tilemap_views", "v_write_raw_cel", "v_write_tilemap_cel"],
      "Observation point Frame::image: both rasterisers are proved (Verus, real text) to hand every source pixel to the blend function with the opacity product round8(layer, cel) and to write its result unchanged, so the laws of the blend functions carry over to frame images. The three laws are proved for all 19 modes (HSL included: alpha never flows through f64) from the contracts of normal / merge with every other callee uninterpreted. Range clause: integer modes via the leaf contracts (reference value in 0..=255 and equal to the truncated result) and normal's full-domain safety; soft light range proved; HSL packed range only bounded-exec.")
 prop("C18", "proof", ["v_extrude_border", "v_palette_mapper_new", "v_palette_mapper_lookup", "x_utils"], "extrude_border, PaletteMapper::new and PaletteMapper::lookup are Verus contracts on the real text (unbounded sizes / palettes; the row iterator chain and IntMap iteration are trusted shims); to_indexed_image (an iterator map/collect over image::pixels) and the feature gate are bounded-exec.")
-prop("C19", "proof", ROUTES_V + ["v_from_vec"] + [a for a in ACC_V if a.startswith("v_acc_cel_")] + ["v_layer_image", "v_write_cel", "v_frame_image", "x_cels_table", "x_routes", "x_frames_vs_spec"], "The three routes (AsepriteFile::cel, Frame::layer, Layer::frame) and the cel accessors frame / layer / is_empty are Verus contracts on the real text: all three construct the cel id (frame, layer) of the same file, so coordinates and emptiness agree by construction (swapped arguments fail the postcondition). Offset, user data and images go through the cel table and the renderer: compared on seeded sprites with frames != layers; single-visible-layer frame == cel image and tilemap image == cel image are bounded-exec.")
+prop("C19", "proof", ROUTES_V + ["v_routes_agree", "v_single_visible_frame", "v_cel_image_api", "v_tilemap_image_api", "v_frame_image_api", "v_from_vec"] + [a for a in ACC_V if a.startswith("v_acc_cel_")] + ["v_layer_image", "v_write_cel", "v_frame_image", "x_cels_table", "x_routes", "x_frames_vs_spec"], "The three routes (AsepriteFile::cel, Frame::layer, Layer::frame) and the cel accessors frame / layer / is_empty are Verus contracts on the real text: all three construct the cel id (frame, layer) of the same file, so coordinates and emptiness agree by construction (swapped arguments fail the postcondition). Offset, user data and images go through the cel table and the renderer: compared on seeded sprites with frames != layers; single-visible-layer frame == cel image and tilemap image == cel image are bounded-exec.")
